@@ -123,6 +123,8 @@ func subList(rl veregister.RegisterList, spec string) veregister.RegisterList {
 	return out
 }
 
+var streamSeq int
+
 func runApiOp(st *apiState, conf vedirect.Config, op string) (res string) {
 	defer func() {
 		if r := recover(); r != nil {
@@ -250,8 +252,22 @@ func runApiOp(st *apiState, conf vedirect.Config, op string) (res string) {
 		}
 		st.vd.VerifSetLastSent(time.Now().Add(time.Hour))
 		var delivered []string
+		streamSeq++
 		note := func(name, val string) {
 			delivered = append(delivered, name+"="+val)
+			if len(delivered) == 1 && streamSeq%2 == 0 {
+				// inside the first callback of every other run the caller filters ITS copy of the object's register list
+				// (a struct copy, as any caller holds): neither the running stream nor the object's list may change
+				mine := st.api.Registers
+				var drop []string
+				for i, r := range mine.GetRegisters() {
+					if i%2 == 1 {
+						drop = append(drop, r.Name())
+					}
+				}
+				mine.FilterByName(drop...)
+				mine.FilterRegister(func(r veregister.Register) bool { return r.Static() })
+			}
 			if len(delivered) == cancelAt {
 				cancel()
 			}
@@ -371,9 +387,12 @@ func runApi() {
 			}
 			st := &apiState{port: p}
 			var results []string
+			var perOp []string // frames written during each operation
 			for _, op := range strings.Split(ops, ";") {
+				before := len(p.Written)
 				r := runApiOp(st, conf, op)
 				results = append(results, r)
+				perOp = append(perOp, strconv.Itoa(len(p.Written)-before))
 				if r == "P" || r == "H" {
 					break
 				}
@@ -385,8 +404,8 @@ func runApi() {
 			if len(ws) == 0 {
 				ws = []string{"-"}
 			}
-			done <- fmt.Sprintf("%s R=%s W=%s nw=%d nf=%d re=%d", c.id, strings.Join(results, ";"), strings.Join(ws, ","),
-				p.NWrites, p.NFlushes, p.ReadsAtEnd)
+			done <- fmt.Sprintf("%s R=%s W=%s nw=%d nf=%d re=%d wo=%s", c.id, strings.Join(results, ";"), strings.Join(ws, ","),
+				p.NWrites, p.NFlushes, p.ReadsAtEnd, strings.Join(perOp, ","))
 		}()
 		select {
 		case s := <-done:
